@@ -3,7 +3,7 @@ from checks import lib
 from checks import C01_common as K
 
 PROPERTY = "C01"
-LEAN_MODULES = ["KafVerif.Props.C01"]
+LEAN_MODULES = ["KafVerif.Props.C01", "KafVerif.Props.C06"]
 OBLIGATIONS = [
     "KafVerif.C01.ack_durable",
     "KafVerif.C01.ack_offsets_durable",
@@ -11,6 +11,7 @@ OBLIGATIONS = [
     "KafVerif.C01.ack_step_durable",
     "KafVerif.C01.old_violates",
     "KafVerif.C01.fixed_same_schedule",
+    "KafVerif.C06.one_log_per_partition",
 ]
 TECHNIQUE = ("Lean 4 proof (inductive invariant of a transition system over all interleavings, S3 fault sequences, crashes) over a hand-written model of the PartitionLog flush protocol + schedule x fault enumeration on the real broker code through gated S3/store fakes, diffed against the model + direct monitor")
 LEVEL_TEXT = ("Lean 4 theorems for EVERY reachable state (any number of producers, any interleaving of critical sections, any outcome of every segment/index upload and store update, crashes and restarts anywhere, any flush thresholds): every acknowledged batch is contained in an S3 segment object whose index object exists (ack_durable), stays so, and is served by a registered segment while the broker is up; the pre-fix code is refuted by a concrete schedule (old_violates). Model tied to the current source by replaying all small schedules and random larger ones on the real handleProduce/PartitionLog and diffing every step.")
@@ -49,6 +50,11 @@ def run(ck):
     ck.cov["rule"] = ("schedules (which gated goroutine proceeds, with which S3 outcome) generated against the real broker from VERIF_SEED; "
                       "non-trivial = >=2 producers and (an upload fault or a Flush waiter or a crash); distinct = distinct command lists")
     enum, rnd = plans(ck.quick())
+    # the model has ONE log per broker incarnation: check that premise on concurrent first requests
+    # (getPartitionLog registry scenario of checks/C06.py, light version, C01 monitor)
+    from checks import C06 as R
+    if not R.run_registry(ck, binary, which=WHICH, light=True):
+        return
     if not K.corpus(ck, binary, PROPERTY, WHICH):
         enum = []
     im = K.Impl(ck, binary)
@@ -77,4 +83,5 @@ def run(ck):
 
 
 def replay(ck, path):
-    K.replay(ck, path, WHICH)
+    from checks import C06 as R
+    K.replay(ck, path, WHICH, mon_fn=lambda o, l: R.reg_monitor(o, l, WHICH))
